@@ -126,6 +126,8 @@ func C13(c *Ctx) {
 	c.R.Explanation = "Decides structural necessary conditions of representation independence and idempotent compilation: (R1) the pattern parser is applied at exactly one site (inside ParsePatterns' branch loop), every value stored into Branch.Pattern there is the canonicalised (JSON round-tripped) parser result, and a successful ParsePatterns records that patterns are in parsed form (PatternSyntax set to a pass-through constant) so that a second Compile or a Compile after reload cannot parse again; (R2) every field of type *ActionSource reachable from Spec has a Compile call on it inside Spec.Compile whose error is propagated, and no iteration of the node loop or branch loop can skip the branching-type check or the guard compilation; (R3) every nil-error return of Compile is dominated by the store compiled=true and that store is reached only past all compilation; (R4) unknown pattern syntax, branching type and interpreter each lead to a non-nil error; (R5) every host function that returns a spec it unmarshalled passes it through Compile with the error checked. Behavioural equivalence of the renderings is not decided."
 	c.R.Rule("C13-R1", "E3+E5", "parse once, canonicalise, remember", 4)
 	c13TextDecoded(c, "C13-R1")
+	c13ParseAlways(c, "C13-R1")
+	c13FindTypedNil(c, "C13-R4")
 	c.R.Rule("C13-R2", "E6+E3", "every source compiled; no iteration skips validation", 6)
 	c.R.Rule("C13-R3", "E3", "success implies compiled", 2)
 	c.R.Rule("C13-R4", "E6", "rejection of unknown syntax, branching type, interpreter", 3)
@@ -798,6 +800,25 @@ func C13(c *Ctx) {
 			continue
 		}
 		c.R.Fn(fname(f))
+		// a loader compiles what the document says: it does not fill in or change fields of the decoded specification
+		// (a default that only one host applies makes the same document behave differently from host to host)
+		for _, al := range specAllocs {
+			if !ssau.TypeIs(al.Type().Underlying().(*types.Pointer).Elem(), prog.Abs("core"), "Spec") {
+				continue
+			}
+			edited := ""
+			for _, r := range ssau.Referrers(al) {
+				if fa, isFA := r.(*ssa.FieldAddr); isFA {
+					for _, r2 := range ssau.Referrers(fa) {
+						if st, isSt := r2.(*ssa.Store); isSt && st.Addr == ssa.Value(fa) {
+							_, fld, _, _ := ssau.FieldOf(fa)
+							edited = fld + " (" + c.pos(st) + ")"
+						}
+					}
+				}
+			}
+			c.R.Check(edited == "", "C13-R5", fname(f)+": the decoded specification is compiled as it was written", c.pos(al), "no field of the decoded core.Spec is assigned by the loader", "the loader assigns "+edited+" of the specification it has just decoded: the same document then means something else when this host loads it")
+		}
 		// every return that hands out a *core.Spec / Specter derived from those allocs must be dominated by a Compile call with its error checked
 		var compiles []*ssa.Call
 		ssau.Instrs(f, func(in ssa.Instruction) {
